@@ -39,6 +39,8 @@ pub struct AlphaCfg {
     pub swaps_per_side: usize,
     /// near-requests: a deposit listing its coins as (right, left), a withdrawal carrying a change output to another address
     pub odd_shapes: bool,
+    /// offer a restart (to_block / from_block) of every sealed state that has not been restarted yet
+    pub restarts: bool,
 }
 
 impl AlphaCfg {
@@ -68,6 +70,7 @@ impl AlphaCfg {
             burnt_requests: false,
             swaps_per_side: 1,
             odd_shapes: false,
+            restarts: false,
         }
     }
 }
@@ -459,6 +462,9 @@ pub fn dn(d: Denom) -> String {
 pub fn actions(n: &Node, cfg: &AlphaCfg) -> Vec<Action> {
     if !n.is_open() {
         let mut v = vec![Action::Open];
+        if cfg.restarts && n.salt == 0 {
+            v.push(Action::Restart);
+        }
         if let Some(j) = cfg.jump_to {
             if n.model.height < j {
                 v.push(Action::Jump(j));
